@@ -436,9 +436,71 @@ def check(case, acct=None, known=()):
       staged_before = k >= 2 and any(o == 'write' for o in oplog[:k])
       if judge('killed-before:' + (oplog[k] if k < n_ops else 'end'), k, staged_before, False):
         nontrivial_positions += 1
+    # ---- process killed at the k-th executed source line of the publishing code (openhtf's callbacks / atomic_write and
+    # the stdlib modules they publish through), i.e. also *inside* shutil / tempfile helpers, whatever they are
+    if case.get('linekill'):
+      n_lines = _line_kill_child(case, sb.dest, None)
+      for k in range(n_lines):
+        sb.reset(prev, name)
+        _line_kill_child(case, sb.dest, k)
+        n_eval += 1
+        if judge('killed-at-line', k, k > 0, False):
+          nontrivial_positions += 1
+      if acct is not None:
+        acct.extra['line_kill_points'] += n_lines
   finally:
     sb.close()
   return finish(r, case, n_eval, nontrivial_positions)
+
+
+KILL_FILES = ('/shutil.py', '/tempfile.py', '/output/callbacks/__init__.py', '/util/atomic_write.py', '/callbacks/json_factory.py')
+
+
+def _line_kill_child(case, destdir, k):
+  """Forks; the child publishes and os._exit()s when it is about to execute its k-th line in KILL_FILES (k=None: counts)."""
+  rd, wr = os.pipe()
+  pid = os.fork()
+  if pid == 0:
+    count = [0]
+    try:
+      os.close(rd)
+
+      def local(frame, event, arg):
+        if event == 'line':
+          if k is not None and count[0] == k:
+            os._exit(137)  # pylint: disable=protected-access
+          count[0] += 1
+        return local
+
+      def tracer(frame, event, arg):
+        return local if frame.f_code.co_filename.endswith(KILL_FILES) else None
+
+      sys.settrace(tracer)
+      try:
+        publish(case, destdir)
+      except BaseException:  # pylint: disable=broad-except
+        pass
+      sys.settrace(None)
+      os.write(wr, str(count[0]).encode())
+    finally:
+      os._exit(0)  # pylint: disable=protected-access
+  os.close(wr)
+  data = os.read(rd, 64)
+  os.close(rd)
+  os.waitpid(pid, 0)
+  return int(data) if data else 0
+
+
+LINEKILL_CASES = [
+    {'kind': 'json', 'prev': 'OLD COMPLETE RECORD', 'pattern': 0, 'chunks': [], 'serializer': None, 'indent': None},
+    {'kind': 'json', 'prev': None, 'pattern': 2, 'chunks': [], 'serializer': None, 'indent': 2},
+    {'kind': 'file', 'prev': 'OLD COMPLETE RECORD', 'pattern': 1, 'chunks': [], 'serializer': 'pickle'},
+    {'kind': 'file', 'prev': 'x', 'pattern': 3, 'chunks': [['s', 'abc'], ['b', 'def'], ['s', 'ghi']], 'serializer': 'chunks', 'single': False},
+    {'kind': 'file', 'prev': None, 'pattern': 0, 'chunks': [['s', 'abc'], ['s', 'def']], 'serializer': 'chunks', 'single': False},
+    {'kind': 'atomic_write', 'prev': 'OLD COMPLETE RECORD', 'pattern': 0, 'chunks': [['s', 'abc'], ['s', 'def']], 'serializer': None, 'filesync': False},
+    {'kind': 'atomic_write', 'prev': 'OLD COMPLETE RECORD', 'pattern': 0, 'chunks': [['s', 'abc'], ['s', 'def']], 'serializer': None, 'filesync': True},
+    {'kind': 'atomic_write', 'prev': None, 'pattern': 0, 'chunks': [['s', 'abc']], 'serializer': None, 'filesync': True},
+]
 
 
 # ------------------------------------------------------------------ one callback instance shared by concurrent runs
@@ -569,6 +631,8 @@ def cases(draw):
 def plan(tier, seed):
   n = 12 if tier == 'quick' else 250
   jobs = [{'kind': 'hyp', 'name': 'hyp%d' % i, 'hseed': seed * 1000 + i, 'n': n} for i in range(16)]
+  for i in range(len(LINEKILL_CASES)):
+    jobs.append({'kind': 'linekill', 'name': 'linekill%d' % i, 'case': i})
   for kind in SHARED_KINDS:
     for nslots, bound in ((2, 1), (3, 1)) if tier == 'quick' else ((2, 2), (3, 1)):
       nsh = 1 if bound == 1 else 8
@@ -582,6 +646,11 @@ def run_job(job, acct):
   if job['kind'] == '_regress':
     from vf import runner  # pylint: disable=g-import-not-at-top
     runner.run_regress(sys.modules[__name__], job, acct)
+    return
+  if job['kind'] == 'linekill':
+    r = check(dict(LINEKILL_CASES[job['case']], linekill=1), acct=acct, known=known)
+    for sig, detail in r.violations:
+      (acct.known if sig in known else acct.violation)(sig, {'case': dict(LINEKILL_CASES[job['case']], linekill=1), 'fault': ['linekill', 0]}, detail)
     return
   if job['kind'] == 'shared':
     import itertools  # pylint: disable=g-import-not-at-top
